@@ -75,6 +75,13 @@ pub(crate) struct Circuit {
     slow_call_count: usize,
     // Outcomes (is_failure, is_slow) of the last `sliding_window_size` calls (count-based)
     count_window: VecDeque<(bool, bool)>,
+    // Trial calls admitted since entering half-open
+    half_open_admitted: usize,
+    // Trial calls that succeeded since entering half-open (independent of the sliding
+    // window, which may be smaller or shorter-lived than the number of trial calls)
+    half_open_successes: usize,
+    // Number of state transitions so far; identifies the current half-open episode
+    episode: u64,
     // Time-based window tracking
     call_records: VecDeque<CallRecord>,
 }
@@ -103,6 +110,9 @@ impl Circuit {
             total_count: 0,
             slow_call_count: 0,
             count_window: VecDeque::new(),
+            half_open_admitted: 0,
+            half_open_successes: 0,
+            episode: 0,
             call_records: VecDeque::new(),
         }
     }
@@ -283,11 +293,8 @@ impl Circuit {
 
         match self.state {
             CircuitState::HalfOpen => {
-                let success_count = match config.sliding_window_type {
-                    SlidingWindowType::CountBased => self.success_count,
-                    SlidingWindowType::TimeBased => self.time_based_stats().2,
-                };
-                if success_count >= config.permitted_calls_in_half_open {
+                self.half_open_successes += 1;
+                if self.half_open_successes >= config.permitted_calls_in_half_open {
                     self.transition_to(CircuitState::Closed, config);
                 }
             }
@@ -381,6 +388,7 @@ impl Circuit {
             CircuitState::Open => {
                 if self.last_state_change.elapsed() >= config.wait_duration_in_open {
                     self.transition_to(CircuitState::HalfOpen, config);
+                    self.half_open_admitted = 1;
                     config
                         .event_listeners
                         .emit(&CircuitBreakerEvent::CallPermitted {
@@ -400,9 +408,9 @@ impl Circuit {
                 }
             }
             CircuitState::HalfOpen => {
-                let permitted =
-                    self.success_count + self.failure_count < config.permitted_calls_in_half_open;
+                let permitted = self.half_open_admitted < config.permitted_calls_in_half_open;
                 if permitted {
+                    self.half_open_admitted += 1;
                     config
                         .event_listeners
                         .emit(&CircuitBreakerEvent::CallPermitted {
@@ -420,6 +428,24 @@ impl Circuit {
                 }
                 permitted
             }
+        }
+    }
+
+    /// If the circuit is half-open, identifies the episode a just-admitted trial call belongs to.
+    pub(crate) fn trial_episode(&self) -> Option<u64> {
+        match self.state {
+            CircuitState::HalfOpen => Some(self.episode),
+            _ => None,
+        }
+    }
+
+    /// Gives back the slot of a trial call that was dropped before its outcome was recorded.
+    pub(crate) fn release_trial(&mut self, episode: u64) {
+        if self.state == CircuitState::HalfOpen
+            && self.episode == episode
+            && self.half_open_admitted > 0
+        {
+            self.half_open_admitted -= 1;
         }
     }
 
@@ -486,6 +512,9 @@ impl Circuit {
         self.state_atomic.store(state as u8, Ordering::Release);
         self.last_state_change = std::time::Instant::now();
         self.clear_window();
+        self.half_open_admitted = 0;
+        self.half_open_successes = 0;
+        self.episode = self.episode.wrapping_add(1);
     }
 
     fn evaluate_window<C>(&mut self, config: &CircuitBreakerConfig<C>) {
